@@ -333,6 +333,5 @@ End Potential.
 (* the fuel reorder_funcs gives its topological sort is at least the potential of the start state *)
 Definition reorder_fuel_ok (te : tyenv) (funcs : list prov) : bool :=
   negb (existsb is_reorder funcs) ||
-  (let '(st, x1) := reorder_prepare te funcs in
-   (length funcs <? length (t_nodes x1)) && (phi te funcs x1 <=? reorder_fuel st)).
+  (let '(st, x1) := reorder_prepare te funcs in phi te funcs x1 <=? reorder_fuel st).
 
